@@ -190,6 +190,25 @@ def handleC (j : Json) : Json :=
       ("perm", toJson ((List.finRange k).map fun jj => (perm jj).val)),
       ("transform", toJson (cmatToBits tf)), ("inverse", toJson (cmatToBits (rotInverse F tf))),
       ("uses_inverse", Gen.rotatorSingleUsesInverse (getInt j "power"))]
+  | "hilbert" =>
+    -- _hilbert_transform_with_padding: real series y (n×p), polyfit line (c0, c1), decay; oracle analytic signal H of the padded series
+    let n := getNat j "n"; let p := getNat j "p"
+    if hn : 0 < n then
+      let y := matOfBits n p (getStrArr j "y")
+      let c0A := (getStrArr j "c0").map bitsToFloat; let c1A := (getStrArr j "c1").map bitsToFloat
+      let c0 : Fin p → Float := fun f => c0A[f.val]!
+      let c1 : Fin p → Float := fun f => c1A[f.val]!
+      let decay := bitsToFloat (getStr j "decay")
+      let padded : Mat (3 * n) p Float := padExp y c0 c1 decay hn
+      if getBool j "padding" then
+        let H := cmatOfBits (3 * n) p (getStrArr j "H")
+        let out : Mat n p CF := hilbertCutRecentre (ρ := Float) H
+        Json.mkObj [("status", "ok"), ("padded", toJson (matToBits padded)), ("out", toJson (cmatToBits out))]
+      else
+        let H := cmatOfBits n p (getStrArr j "H")
+        let out : Mat n p CF := hilbertRecentre (ρ := Float) H
+        Json.mkObj [("status", "ok"), ("padded", toJson (matToBits padded)), ("out", toJson (cmatToBits out))]
+    else Json.mkObj [("status", "ValueError")]
   | "pop" =>
     -- POP without PCA: real data X (n×p, as complex with zero imaginary part); oracles Cinv, eigen-pairs (lam, P), 2×2 pinvs, arg(lam)
     let n := getNat j "n"; let p := getNat j "p"; let k := getNat j "k"
